@@ -278,6 +278,14 @@ func checkC20(tier string, seed int64) int {
 			Replay: map[string]interface{}{"kind": "prog", "src": f.p.src, "entry": "Entry", "params": []Param{{"sel", "int"}, {"d", "int"}}, "results": []string{"int"}, "model": f.f.Model, "mode": 0, "assertion": f.f.ID}})
 	}
 	agg.Into(c, "")
+	// packed-position lemma (shape L): symbolic line and column through the real newPos / pos.info
+	lagg := NewAgg()
+	lres := c.runLemmaHarnesses([]string{"verifH_C20_pos"}, "z3", lagg)
+	c.confirmLemmaFailures(lres, func(id string) string {
+		return "packed position obligation " + strings.TrimPrefix(id, "C20/L/pos/") + " fails"
+	})
+	lagg.Into(c, "pos_lemma_")
+	c.Assumption("position lemma: line and column are arbitrary positive int32 values; file/function names from a fixed list; line and column must read back exactly below 65535, names always, and info must not fail for any value")
 	c.Cov("paths_compared", st.compared)
 	c.Cov("rule", fmt.Sprintf("call chains of depth %v through functions and methods, in five variants (plain, preceded by a loop, preceded by a switch, call as statement, call spread over two lines) with seven fault kinds (index, divide by zero, panic, nil struct access, nil func call, nil map write, slice bounds) planted at generator-known lines in every level; symbolic selectors decide which fault fires at which depth, so all (depth, fault) pairs of a chain are covered by one exploration; the real error text is checked in three pipelines (public Eval, in-package optimizer on, optimizer off): first line = function and line of the fault, then one line per active call innermost first with the line of the call, and on == off", depths))
 	return c.Finish(false)
